@@ -1,2 +1,3 @@
 -- every theorem module (built by setup.sh so that per-check builds are incremental)
 import NutsModel.Thm.C07
+import NutsModel.Thm.C01
